@@ -754,20 +754,41 @@ class List(list, base.Symbolic, pg_typing.CustomTyping):
       if isinstance(value, base.TopologyAware):
         value.sym_setparent(None)
         value.sym_setpath(utils.KeyPath())
+    self._notify_reordering(removed)
+
+  def _notify_reordering(self, old_values: typing.List[Any]) -> None:
+    """Notifies the positions whose element changed after a bulk operation."""
+    if not flags.is_change_notification_enabled():
+      return
+    field = self._value_spec.element if self._value_spec else None
+    new_values = list(self.sym_values())
+    updates = []
+    for i in range(max(len(old_values), len(new_values))):
+      old = old_values[i] if i < len(old_values) else pg_typing.MISSING_VALUE
+      new = new_values[i] if i < len(new_values) else pg_typing.MISSING_VALUE
+      if old is not new:
+        updates.append(base.FieldUpdate(
+            utils.KeyPath(i, self.sym_path), self, field, old, new))
+    if updates:
+      self._notify_field_updates(updates)
 
   def sort(self, *, key=None, reverse=False) -> None:
     """Sorts the items of the list in place.."""
     if base.treats_as_sealed(self):
       raise base.WritePermissionError('Cannot sort a sealed List.')
+    old_values = list(self.sym_values())
     super().sort(key=key, reverse=reverse)
     self._sync_children()
+    self._notify_reordering(old_values)
 
   def reverse(self) -> None:
     """Reverse the elements of the list in place."""
     if base.treats_as_sealed(self):
       raise base.WritePermissionError('Cannot reverse a sealed List.')
+    old_values = list(self.sym_values())
     super().reverse()
     self._sync_children()
+    self._notify_reordering(old_values)
 
   def custom_apply(
       self,
